@@ -85,6 +85,16 @@ def build_lib(outdir, name, cc, extra, incdir, prefix=None, rename_sections=Fals
                    "pthread_spin_lock"):
             f.write("%s h3amb_%s\n" % (fn, fn))
     run(["objcopy", "--redefine-syms=" + amb, rel])
+    if not prefix:
+        # the simulated copy must obtain ALL heap memory through H3_MEMORY(...) (bound to the simulated heap by
+        # -DH3_ALLOC_PREFIX).  A plain libc allocator call added by a change would be invisible to every monitor,
+        # so such calls are routed into the same arena (heap.cc: h3byp_*): tracked, never failed, and a block
+        # crossing between the two families is reported.  The unchanged tree makes none.
+        byp = os.path.join(od, "bypass.txt")
+        with open(byp, "w") as f:
+            for fn in ("malloc", "calloc", "realloc", "free"):
+                f.write("%s h3byp_%s\n" % (fn, fn))
+        run(["objcopy", "--redefine-syms=" + byp, rel])
     if prefix:
         syms = run(["nm", "--defined-only", "-g", rel]).split("\n")
         mapping = os.path.join(od, "redefine.txt")
@@ -128,8 +138,9 @@ def build(variant, outdir):
     gen_header(incdir)
     cov = variant.startswith("cov")
     asan = variant.endswith("-asan")
+    prof = variant.endswith("-prof")  # development aid: clang source-based coverage of the simulated copy (tools/srccov.py)
     dbg = variant.endswith("-dbg")   # same as cov but WITHOUT -DNDEBUG (assert-enabled builds are legitimate deployments)
-    cc = "clang" if cov else "gcc"
+    cc = "clang" if (cov or prof) else "gcc"
     san = ["-fsanitize=address,undefined", "-fno-omit-frame-pointer", "-fno-sanitize-recover=undefined"] if asan else []
     if asan and not cov:
         # gcc: keep going after UBSan reports so that they are classified, not fatal mid-run
@@ -142,7 +153,9 @@ def build(variant, outdir):
     if cov:
         simflags += ["-fsanitize-coverage=trace-pc-guard,pc-table", "-fno-pic"]
         refflags += ["-fno-pic"]
-    fence = not asan   # ASan registers globals by section; leave its layout alone
+    if prof:
+        simflags += ["-fprofile-instr-generate", "-fcoverage-mapping"]
+    fence = not asan and not prof   # ASan registers globals by section; leave its layout alone
     lib_sim = build_lib(outdir, "libsim", cc, simflags, incdir, rename_sections=fence)
     lib_ref = build_lib(outdir, "libref", cc, refflags, incdir, prefix="ref_")
     # simulator objects (never instrumented with coverage guards)
@@ -150,6 +163,8 @@ def build(variant, outdir):
     cxx += ["-DSIM_COV=1"]
     if cov:
         cxx += ["-fno-pic"]
+    if prof:
+        cxx += ["-DSIM_NO_STATIC_FENCE=1"]
     if asan:
         cxx += ["-DSIM_NO_STATIC_FENCE=1", "-DSIM_DELEGATE_MALLOC=1", "-fsanitize=address,undefined", "-fno-omit-frame-pointer"]
     od = os.path.join(outdir, "simobjs")
@@ -187,6 +202,9 @@ def build(variant, outdir):
     link += [lib_ref, "-lm", "-lpthread"]
     if asan:
         link += ["-fsanitize=address,undefined"]
+    if prof:
+        import glob
+        link += ["-Wl,-u,__llvm_profile_runtime"] + glob.glob("/usr/lib/llvm-14/lib/clang/14*/lib/linux/libclang_rt.profile-x86_64.a")
     run(link)
     if fence:
         secs = run(["readelf", "-S", "-W", exe])
